@@ -117,6 +117,19 @@ def check_dist(d, ref, stats, rnd, key_seed):
         if (err > tol).any():
             j = int(onp.argmax(err / tol))
             V.append(dict(clause="mixture_quantile_disagrees_with_cdf", q=qs[j], quantile=float(v[j]), cdf_at_quantile=float(cdf[j]), tol=tol, params=ref))
+        # extreme levels: rex may refuse them ("Grid does not span"), but an answer must still be monotone and agree with the CDF
+        for qx in (0.9999, 0.99999, 0.999999, 1.0 - 1e-7, 0.0001):
+            try:
+                vx = float(d.quantile(qx))
+            except RuntimeError:
+                stats["extreme_levels_refused"] += 1
+                continue
+            stats["extreme_levels_answered"] += 1
+            cx = float(mix_cdf(vx, w, loc, scale))
+            ok_monotone = (vx >= v[-1] - 1e-9) if qx > 0.995 else (vx <= v[0] + 1e-9)
+            if not ok_monotone or abs(cx - qx) > tol:
+                V.append(dict(clause="extreme_level_quantile_wrong_instead_of_refused", q=qx, quantile=vx, cdf_at_quantile=cx, q995=float(v[-1]), q005=float(v[0]), params=ref))
+                break
     elif kind == "train":
         dval = ref["min"] + ref["alpha"] * (ref["max"] - ref["min"])
         if (onp.abs(v - dval) > 1e-6).any():
